@@ -184,6 +184,14 @@ def handleBook : List String → Ans
     (Book.showTally Book.walkModel,
      Book.showTally (Book.visit (fun (p : Position) m => if p.legal m then some (p.apply m) else none)
        (Book.root + 1) Book.root (abs Board.standard) 0 { nodes := 1 }))
+  -- `book rest <pos64>...`: is each position one at which a walk along book moves from the start comes to rest?
+  -- (model: the modelled make-move; specification: the rules of chess)
+  | "rest" :: ps =>
+    let ml := (Book.leaves (fun b m => Board.moveNew b m) (Book.root + 1) Book.root Board.standard []).map encodeBoard
+    let sl := (Book.leaves (fun (p : Position) m => if p.legal m then some (p.apply m) else none)
+      (Book.root + 1) Book.root (abs Board.standard) []).map encodePosition
+    let ans (l : List String) := " ".intercalate (ps.map (fun p => if l.contains p then "rest" else "not-a-book-line"))
+    (ans ml, ans sl)
   | _ => bad
 
 end Chess.Drv
